@@ -125,7 +125,20 @@ def feature_selfjoin(t):
     return False
 
 
-FEATURES = {"selfjoin": feature_selfjoin}
+def feature_aggmany(t):
+    """An aggregate or First() whose source, followed down its chain of Select / Where steps (and the body of a
+    lambda applied on the spot), reaches a SelectMany."""
+    for n in _subterms(t):
+        if n["k"] in ("Count", "Sum", "First", "Aggregate", "Max", "Min") and n["ch"]:
+            c = n["ch"][0]
+            while c["k"] in ("Select", "Where", "Let", "SelectMany") and c["ch"]:
+                if c["k"] == "SelectMany":
+                    return True
+                c = c["ch"][1] if c["k"] == "Let" else c["ch"][0]
+    return False
+
+
+FEATURES = {"selfjoin": feature_selfjoin, "aggmany": feature_aggmany}
 
 
 class PFindings:
@@ -195,15 +208,21 @@ def build_cases(spec, tier, uni, rnd):
     gen_states = gen_trans = 0
     profiles = spec.profiles[tier]
     if os.environ.get("VERIF_PROFILES"):      # ad-hoc exploration only; no registered command sets it
-        # cfg[@backend][+md10]
+        # cfg[~<simulate num>][@backend][+md10][+fnmd]
         profiles = []
         for c in os.environ["VERIF_PROFILES"].split(","):
             o = {}
+            sim = None
+            if c.endswith("+fnmd"):
+                c, o["fnmd"] = c[:-5], True
             if c.endswith("+md10"):
                 c, o["md10"] = c[:-5], True
             if "@" in c:
                 c, o["backend"] = c.split("@")
-            profiles.append((c, None, o))
+            if "~" in c:
+                c, n = c.split("~")
+                sim = {"num": int(n)}
+            profiles.append((c, sim, o))
     capped = False
     for entry in profiles:
         cfg, sim = entry[0], entry[1]
